@@ -443,6 +443,13 @@ pub fn build(
                 .flat_map(|r| r.type_ref.alignment(&semantic.type_registry)),
         );
 
+        // Ensure that the alignment is one that the Rust compiler will accept.
+        if !alignment.is_power_of_two() {
+            anyhow::bail!(
+                "alignment {alignment} for type `{resolvee_path}` is not a power of two"
+            );
+        }
+
         // Ensure that the alignment is at least the minimum required alignment.
         if required_alignment > alignment {
             anyhow::bail!(
